@@ -22,11 +22,15 @@ META = {
             "configuration (hosts_file, three origins, clients bound to different 127/8 source addresses, named and "
             "numeric URL hosts incl. one without reverse DNS, which makes dstdomain go asynchronous).",
     "note": "partial: the theorems are about the transcribed decision path (AccessModel.v); that the event-driven proxy runs "
-            "exactly this path for every request rests on the end-to-end correspondence. Hypotheses of the main theorem: IP "
-            "values are IPv4 without host bits below the mask and prefix length 1..32 (C42's side conditions; Squid warns "
-            "about the others), tokens non-empty/clean, ports 0..65535, the URL host resolves. The text->address conversion "
-            "of IP values and hosts_file parsing are inputs of the model, not modelled. Trusted: Coq kernel, extraction, "
-            "gen/gen_accessmeth.cc, vlib/lab.py stubs, the client/origin stubs in this file.",
+            "exactly this path for every request (and forwards what clientAccessCheckDone lets pass) rests on the end-to-end "
+            "correspondence. Hypotheses of the main theorem (line_ok / req_ok): IP values are IPv4 without bits below the "
+            "mask and with prefix length 1..32 (C42's side conditions; Squid itself warns about the others; they are still "
+            "exercised by the correspondence run), tokens non-empty and free of NUL/white space, method values not proper "
+            "prefixes of registered names, addresses 32-bit, ports 0..65535. Inputs of the model that are not modelled: the "
+            "text->address conversion of IP values (sscanf/getaddrinfo in FactoryParse), hosts_file parsing (static "
+            "ipcache/fqdncache entries), URL parsing; a failed reverse lookup is its result 'none'. In the C44 composition "
+            "theorem every literal occurrence is its own scripted leaf (so it may suspend independently). Trusted: Coq "
+            "kernel, extraction, gen/gen_accessmeth.cc, vlib/lab.py, the client/origin stubs in this file.",
     "technique": "Coq proof (state invariant over configuration parsing and request sequences, composition of the C41-C44 "
                  "theorems, refinement to a first-match reference) + end-to-end differential correspondence of the extracted "
                  "model against the running squid + independent oracle",
@@ -283,6 +287,7 @@ def client_request(port, src, method, url, body=None, timeout=12.0):
 
 
 _state = {}
+_stats = {}
 _lock = threading.Lock()
 SPEC = {"body": "ok", "headers": [["Cache-Control", "no-store"]]}
 
@@ -486,7 +491,12 @@ def kind_of(s, o):
         return "fatal-config:" + o.split(" ")[0]
     t = split_obs(o) if o.startswith("res ") else []
     f = sum(1 for x in t if x == "F")
-    return "%s fwd=%d%% " % ("quirk-values" if s.get("lenient") else "served", (100 * f // max(1, len(t))) // 25 * 25)
+    _stats["forwarded"] = _stats.get("forwarded", 0) + f
+    _stats["denied"] = _stats.get("denied", 0) + sum(1 for x in t if x == "D")
+    _stats["other"] = _stats.get("other", 0) + sum(1 for x in t if x not in ("F", "D"))
+    q = (100 * f // max(1, len(t))) // 25 * 25
+    return "%s forwarded %s" % ("quirk-values" if s.get("lenient") else "served",
+                                "100%" if q == 100 else "%d-%d%%" % (q, q + 24))
 
 
 def run(res, tier):
@@ -502,4 +512,6 @@ def run(res, tier):
                 n_quick=24, n_thorough=600, seed_salt=45, kind_fn=kind_of,
                 nontrivial_fn=lambda s, o: o.startswith("res ") and "F" in o and "D" in o)
     res.extra["requests_per_configuration"] = 25
+    res.extra["requests_first_pass"] = dict(_stats)
     _state.clear()
+    _stats.clear()
